@@ -1,5 +1,5 @@
 (* C02 property theorems (theorems only). *)
-From Wz Require Import lib.Bytes lib.Utf8 C02.Gen C02.Model C02.Proofs C02.Encoder.
+From Wz Require Import lib.Bytes lib.Utf8 C01.Model C01.Hold C01.Render C01.HeaderBlock C02.Gen C02.Model C02.Proofs C02.Encoder C02.Roundtrip.
 Open Scope N_scope.
 
 (* URL-encoded forms and query strings round-trip for every list of Unicode pairs: repeated keys,
@@ -41,3 +41,34 @@ Theorem C02_literals_pinned :
   && list_eqb urlencode_safe_text [33; 36; 39; 40; 41; 42; 44; 47; 58; 59; 63; 64] = true.
 Proof. exact encoder_literals_pinned. Qed.
 Print Assumptions C02_literals_pinned.
+
+(* what the encoder writes is a rendered CRLF body in the sense of C01/Render.v *)
+Theorem C02_encode_is_render : forall B pre parts epi,
+  encode B (XPreamble pre :: flat_map events_of parts ++ [XEpilogue epi])
+  = Some (render B LBcrlf (pre ++ CRLF) (map to_rpart parts) (CRLF ++ epi)).
+Proof. exact encode_is_render. Qed.
+Print Assumptions C02_encode_is_render.
+
+(* the sans-io round trip: for every part list the boundary can carry (wf_body: no delimiter line
+   inside a payload, header lines without line breaks, ...), every fragmentation of the data on the
+   encoder side and EVERY chunking of the bytes on the decoder side, the decoder returns the parts
+   that were encoded: payloads byte-exact, header blocks parsed identically *)
+Theorem C02_sansio_roundtrip : forall B pre parts epi wire chunks,
+  good_boundary B = true ->
+  wf_body B LBcrlf (pre ++ CRLF) (map to_rpart parts) (CRLF ++ epi) = true ->
+  encode B (XPreamble pre :: flat_map events_of parts ++ [XEpilogue epi]) = Some wire ->
+  concat chunks = wire ->
+  exists evs, drive no_limits B chunks = Ok evs /\
+    Forall2 (fun a e => parse_headers (fst a) = parse_headers (fst e) /\ snd a = snd e)
+            (parts_of evs) (map spec_of_part parts).
+Proof. exact sansio_roundtrip. Qed.
+Print Assumptions C02_sansio_roundtrip.
+
+(* the hypotheses are satisfiable: a field with an empty fragment and a CRLF-rich payload, and a file *)
+Example C02_roundtrip_example :
+  let parts := [mkep [97] None [] [[]; [120; 13; 10; 45; 45]] [121];
+                mkep [102] (Some [116; 46; 98]) [([67; 45; 84], [116; 47; 112])] [] []] in
+  good_boundary [66; 110; 100] = true /\
+  wf_body [66; 110; 100] LBcrlf ([] ++ CRLF) (map to_rpart parts) (CRLF ++ []) = true.
+Proof. vm_compute. split; reflexivity. Qed.
+Print Assumptions C02_roundtrip_example.
